@@ -11,7 +11,7 @@ any change of a rounding method (`MulDecTruncate`/`QuoTruncate`/`MulDec`), of an
 order of the writes, or a dropped statement changes the regenerated list and breaks these theorems.
 Model counterparts: shapeAllocateTokens ↔ `allocateTokensWith`/`valLoopWith`/`valReward`/`feeMultiplier`;
 shapeAllocateTokensToValidator ↔ `allocValidatorWith`; shapeAllocateTokensToStakers ↔ `allocStakers`/
-`stakerLoop`/`powerMap`/`occTotal`; shapeAllocateTokensToSingleStaker ↔ `bookAdd`;
+`stakerLoop`/`powerAcc`/`occTotal`; shapeAllocateTokensToSingleStaker ↔ `bookAdd`;
 shapeDistrAfterEpochEnd / shapeMintAfterEpochEnd ↔ `onEpochEnd`/`mintHook`.
 -/
 namespace ExoVerif.Distr
@@ -98,8 +98,12 @@ theorem C17_tie_shapeAllocateTokensToStakers : shapeAllocateTokensToStakers =
     "range stakerList.Stakers key _ value staker",
     "if curStakerPower, err := k.StakingKeeper.CalculateUSDValueForStaker(ctx, staker, avsAddress, operatorAddress.Bytes()); err != nil",
     "else",
+    "if prevPower, seen := stakersPowerMap[staker]; seen",
+    "stakersPowerMap[staker] = prevPower.Add(curStakerPower)",
+    "else",
     "stakersPowerMap[staker] = curStakerPower",
     "globalStakerAddressList = append(globalStakerAddressList, staker)",
+    "end if",
     "curTotalStakersPowers = curTotalStakersPowers.Add(curStakerPower)",
     "end if",
     "end range",
@@ -118,7 +122,7 @@ theorem C17_tie_shapeAllocateTokensToStakers : shapeAllocateTokensToStakers =
     "remaining = remaining.Sub(rewardToSingleStaker)",
     "end range",
     "end if",
-    "feePool.CommunityPool = feePool.CommunityPool.Add(rewardToAllStakers...)"] := rfl
+    "feePool.CommunityPool = feePool.CommunityPool.Add(remaining...)"] := rfl
 
 theorem C17_tie_shapeAllocateTokensToSingleStaker : shapeAllocateTokensToSingleStaker =
   [
@@ -165,7 +169,7 @@ theorem C17_tie_shapeAddCollectedFees : shapeAddCollectedFees =
     "return k.bankKeeper.SendCoinsFromModuleToModule( ctx, types.ModuleName, k.feeCollectorName, fees, )"] := rfl
 
 theorem C17_tie_stakersCommunityArg : stakersCommunityArg =
-  "rewardToAllStakers" := rfl
+  "remaining" := rfl
 
 /-- position of a name in a list -/
 def idxOf (x : String) : List String → Nat
